@@ -42,11 +42,12 @@ def plan(tier, seed):
         for i in range(n):
             units.append({'kind': 'cbc', 'lens': lens[i::n], 'weight': 3})
             units.append({'kind': 'gcm', 'lens': lens[i::n], 'weight': 4})
-        for i in range(8):
+        for i in range(32):
             units.append({'kind': 'cbc-neg', 'weight': 3})
             units.append({'kind': 'gcm-neg', 'weight': 3})
-        for proto in ('tlcp', 'tls12', 'tls13'):
-            units.append({'kind': 'live', 'proto': proto, 'weight': 3})
+        for rep in range(2):
+            for proto in ('tlcp', 'tls12', 'tls13'):
+                units.append({'kind': 'live', 'proto': proto, 'weight': 3})
     else:
         lens = list(range(0, 16385))
         n = 96
